@@ -167,9 +167,54 @@ def run_js_functions(rep, spec, contracts, verbose=False):
             rep.undecided.append(('js ' + c.key, '%s: %s' % (type(ex).__name__, ex)))
     return out
 
+def vacuity_guard(rep, obls):
+    """A contradictory hypothesis set (a wrong assumed contract, a contradictory requires, an invariant that excludes every
+    state) discharges everything.  For every function the return paths, and for every loop the back-edge paths, are
+    grouped; a group in which NO member has satisfiable hypotheses makes the function undecided (reported, not counted)."""
+    import z3
+    from .smt import _has_q
+    groups = {}
+    for o in obls:
+        if o.kind != 'proof' or not o.hyps:
+            continue
+        m = re.search(r'/(post#|inv-step#(\d+)\.|panic-post#|throws#)', o.name)
+        if not m:
+            if o.name.startswith('pattern '):       # an emitted-code pattern: all its obligations form one group
+                groups.setdefault((o.name.split('/')[0], 'the end of the emitted function'), []).append(o)
+            continue
+        g = 'the return' if m.group(1).startswith(('post', 'panic', 'throws')) else 'the back edge of loop %s' % m.group(2)
+        groups.setdefault((o.func or o.name.split('/')[0], g), []).append(o)
+    memo = {}
+    def feasible(o):
+        k = tuple(h.get_id() for h in o.hyps)
+        if k in memo:
+            return memo[k]
+        s = z3.Solver(); s.set('timeout', 1500)
+        s.add([h for h in o.hyps if not _has_q(h)])
+        r = s.check()
+        if r != z3.unsat:
+            s2 = z3.Solver(); s2.set('timeout', 1000); s2.add(o.hyps)
+            r = s2.check()
+        memo[k] = (r != z3.unsat)
+        return memo[k]
+    bad = []
+    for (f, g), members in groups.items():
+        if not any(feasible(o) for o in members):
+            bad.append((f, g))
+    for f, g in bad:
+        rep.undecided.append((f, 'vacuous: every path to %s has contradictory hypotheses (the obligations of this function prove nothing)' % g))
+        if f in rep.functions:
+            rep.functions.remove(f)
+    rep.extra['vacuity_groups_checked'] = len(groups)
+    return bad
+
 def finish(rep, obls, pf, technique, assumptions=()):
     pf.discharge(obls)
     pf.discharge(rep.covers)
+    try:
+        vacuity_guard(rep, obls)
+    except Exception as ex:
+        rep.notes.append('vacuity guard failed: %r' % (ex,))
     rep.obls = obls
     rep.solver_seconds = pf.solver_seconds
     failed = [o for o in obls if o.status != 'discharged']
